@@ -30,6 +30,14 @@ def FLOORS(tier):
             f["%s:%s" % (fn, t)] = 40 if q else 1500
     return f
 
+_FLOORS_BEFORE_ROUND9 = FLOORS
+
+
+def FLOORS(tier):      # noqa: F811 -- floors of the input classes added in round 9 (a quarter of what seed 0 observes in the quick tier)
+    f = _FLOORS_BEFORE_ROUND9(tier)
+    f.update({'named-variable-edited-in-place': 66, 'second-look:model-edited-in-place:change-coefficient': 95, 'second-look:model-edited-in-place:remove-a-term': 62, 'second-look:model-edited-in-place:swap-a-term': 97})
+    return f
+
 
 def NTOL():
     """comparison tolerance of the normalize checks: float32 inputs keep float32 precision (numpy's rule, not the library's)"""
